@@ -174,6 +174,25 @@ Definition validate_column (m : str) (ia : bool) (k : nat) (rows : list orow) : 
 Definition validate_smiles (m : str) (ia : bool) (ncols : nat) (rows : list orow) : list (list bool * nat * nat) :=
   map (fun k => validate_column m ia k rows) (seq 0 ncols).
 
+(** smiles_check_tautomer(mapped, truth, method, ia) = any(smiles_check(mapped, t, method, ia) for t in enumerate_tautomers(truth));
+    [tauts] = the parsed tautomer strings (RDKit's enumeration: oracle input; the first entry is the ground truth itself),
+    None = the enumeration failed and the function answers None.
+    check_pair(record, mapped_col, truth_col, method, ia, ignore_tautomers) picks one of the two. *)
+Definition ograph : Type := option (mgraph * mgraph).
+Definition smiles_check_tautomer (m : str) (ia : bool) (r1 : ograph) (tauts : option (list ograph)) : option bool :=
+  match tauts with
+  | None => None
+  | Some l => Some (existsb (fun t => smiles_check_full m ia r1 t) l)
+  end.
+Definition check_pair (m : str) (ia it : bool) (r1 r2 : ograph) (tauts : option (list ograph)) : option bool :=
+  if it then Some (smiles_check_full m ia r1 r2) else smiles_check_tautomer m ia r1 tauts.
+(** validate_smiles with both flags: a record = (ground truth, its tautomers, mapped columns) *)
+Definition orowT : Type := (ograph * option (list ograph) * list ograph)%type.
+Definition validate_column_t (m : str) (ia it : bool) (k : nat) (rows : list orowT) : list (option bool) :=
+  map (fun r : orowT => check_pair m ia it (nth k (snd r) None) (fst (fst r)) (snd (fst r))) rows.
+Definition validate_smiles_t (m : str) (ia it : bool) (ncols : nat) (rows : list orowT) : list (list (option bool)) :=
+  map (fun k => validate_column_t m ia it k rows) (seq 0 ncols).
+
 (** FixAAM.fix_aam_rsmi at graph level: every map number (= node id of the parsed graph) is increased by one *)
 Definition fix_aam_graph (G : mgraph) : mgraph := set_amap (relabel N.succ G).
 
@@ -231,6 +250,8 @@ Definition run_expand (nR : nat) (maps : list Z) : tok :=
   L [tlist I (fst (expand_sides nR maps)); tlist I (snd (expand_sides nR maps))].
 Definition run_validate (m : str) (ia : bool) (ncols : nat) (rows : list orow) : tok :=
   tlist (fun c : list bool * nat * nat => L [tlist tbool (fst (fst c)); tnat (snd (fst c)); tnat (snd c); I 1]) (validate_smiles m ia ncols rows).
+Definition run_validate_t (m : str) (ia it : bool) (ncols : nat) (rows : list orowT) : tok :=
+  tlist (tlist (topt tbool)) (validate_smiles_t m ia it ncols rows).
 Definition run_fixaam (G H : mgraph) : tok := L [tmgraph (fix_aam_graph G); tmgraph (fix_aam_graph H)].
 Definition run_subgraph (G : mgraph) (keep order : list N) : tok :=
   L [tmgraph (extract_subgraph G keep); tmgraph (reset_indices_by order (extract_subgraph G keep)); tmgraph (reset_indices G)].
